@@ -208,7 +208,50 @@ func shippedValue(c *Ctx, fn *ssa.Function, x ssa.Value) bool {
 	if p, ok := x.(*ssa.Parameter); ok && paramWrittenToTar(c, fn, p, 0) {
 		found = true
 	}
+	if p, ok := x.(*ssa.Parameter); ok && !found {
+		// a hashing helper below the function that writes the member: the
+		// value every caller hands in is shipped there
+		found = shippedAtCallers(c, fn, p, 0)
+	}
 	return found
+}
+
+func shippedAtCallers(c *Ctx, fn *ssa.Function, p *ssa.Parameter, depth int) bool {
+	if depth > 3 {
+		return false
+	}
+	idx := -1
+	for i, q := range fn.Params {
+		if q == p {
+			idx = i
+		}
+	}
+	sites := newProv(c).callSites(fn)
+	if idx < 0 || len(sites) == 0 {
+		return false
+	}
+	for _, cs := range sites {
+		if idx >= len(cs.Common().Args) {
+			return false
+		}
+		arg := cs.Common().Args[idx]
+		caller := cs.Parent()
+		ok := false
+		if arg.Referrers() != nil {
+			for _, ref := range *arg.Referrers() {
+				if call, isCall := ref.(*ssa.Call); isCall && calleeIs(call, "archive/tar", "Writer", "Write") && call.Call.Args[1] == arg {
+					ok = true
+				}
+			}
+		}
+		if ap, isPrm := arg.(*ssa.Parameter); isPrm && !ok {
+			ok = paramWrittenToTar(c, caller, ap, 0) || shippedAtCallers(c, caller, ap, depth+1)
+		}
+		if !ok {
+			return false
+		}
+	}
+	return true
 }
 
 func paramWrittenToTar(c *Ctx, fn *ssa.Function, p *ssa.Parameter, depth int) bool {
@@ -947,11 +990,50 @@ func checkPAXChecksum(c *Ctx, r *Report) {
 			}
 			n++
 			okDom := false
+			hasWH := false
 			forEachInstr(fn, func(i2 ssa.Instruction) {
 				if wh, ok := i2.(*ssa.Call); ok && calleeIs(wh, "archive/tar", "Writer", "WriteHeader") {
+					hasWH = true
 					okDom = instrDominates(mu, wh)
 				}
 			})
+			if !hasWH {
+				// the record is set by a helper of the function that writes the
+				// header: set on every successful return of the helper, and the
+				// helper's call dominates the header write in every caller
+				okHelper := true
+				for _, b := range fn.Blocks {
+					ret, isRet := b.Instrs[len(b.Instrs)-1].(*ssa.Return)
+					if !isRet {
+						continue
+					}
+					success := len(ret.Results) == 0
+					if len(ret.Results) > 0 {
+						if k, isK := ret.Results[len(ret.Results)-1].(*ssa.Const); isK && k.IsNil() {
+							success = true
+						}
+					}
+					if success && b != mu.Block() && !mu.Block().Dominates(b) {
+						okHelper = false
+					}
+				}
+				sites := newProv(c).callSites(fn)
+				if len(sites) == 0 {
+					okHelper = false
+				}
+				for _, cs := range sites {
+					domWH := false
+					forEachInstr(cs.Parent(), func(i2 ssa.Instruction) {
+						if wh, ok := i2.(*ssa.Call); ok && calleeIs(wh, "archive/tar", "Writer", "WriteHeader") {
+							domWH = instrDominates(cs, wh)
+						}
+					})
+					if !domWH {
+						okHelper = false
+					}
+				}
+				okDom = okHelper
+			}
 			r.Check(okDom, "O1-pax", "apk: per-file SHA-1 record set before every header write in "+c.funcKey(fn), c.instrPos(mu), "the APK-TOOLS.checksum.SHA1 record must be set on every path to WriteHeader (also for empty files), otherwise apk cannot verify that member")
 		})
 	}
